@@ -44,6 +44,9 @@ LEVEL = "model_checking"
 MAX_N = 4
 MAX_W = 3
 LETTERS = ("one", "two", "slow", "syn", "lex", "empty")
+ALL_LETTERS = LETTERS + ("ws1", "ws2", "dup")
+# lists over the extra letters (texts that are equal up to white space / equal under different names)
+EXTRA_LISTS = (("ws1", "ws2"), ("ws2", "ws1"), ("ws1", "ws1"), ("ws1", "ws2", "ws1"), ("ws2", "one", "ws1"), ("one", "dup"), ("dup", "one"), ("one", "dup", "one"), ("lex", "ws2", "ws1"))
 TASK_TIMEOUT = float(os.environ.get("VERIF_C18_TASK_TIMEOUT", "60"))  # one parse_single takes 0.2-0.5 s
 REAL_TIMEOUT = float(os.environ.get("VERIF_C18_REAL_TIMEOUT", "90"))  # one Parser.parse with the real pool takes ~1 s
 SEQ_TIMEOUT = float(os.environ.get("VERIF_C18_SEQ_TIMEOUT", "150"))  # one subtree of the sequential reference (<= 43 parse_single calls)
@@ -96,10 +99,17 @@ def setup():
         # a character no terminal can start with
         "lex": ("broken_char", ["{ RdV = $; }"]),
         "empty": ("A2_nop", list(corpus["A2_nop"])),
+        # two behaviours with the same characters apart from white space and different structure, and an exact duplicate of
+        # an other task's text under another name (tasks are independent whatever their texts have in common)
+        "ws1": ("ws_logical_and", ["{ RdV = RsV && RtV; }"]),
+        "ws2": ("ws_and_addr", ["{ RdV = RsV & &RtV; }"]),
+        "dup": ("A2_add_again", list(corpus["A2_add"])),
     }
     _S.update(P=P, Conf=Conf, grammar=grammar, alpha=alpha, orig_pool=P.Pool, lark=lark, ref_parser=lark.Lark(grammar, start="fbody", parser="earley"), ref_parts={})
     shape = {k: ref_parts(tuple(v[1])) for k, v in alpha.items()}
-    want = {"one": (1, None), "two": (2, None), "slow": (1, None), "syn": (0, "UnexpectedEOF"), "lex": (0, "UnexpectedCharacters"), "empty": (1, None)}
+    want = {"one": (1, None), "two": (2, None), "slow": (1, None), "syn": (0, "UnexpectedEOF"), "lex": (0, "UnexpectedCharacters"), "empty": (1, None), "ws1": (1, None), "ws2": (1, None), "dup": (1, None)}
+    if shape["ws1"][0] == shape["ws2"][0]:
+        raise core.HarnessError("the two white-space twins parse to the same tree under this grammar")
     got = {k: (len(v[0]), v[1]) for k, v in shape.items()}
     if got != want:
         raise core.HarnessError("the task alphabet no longer has its stated shape under this grammar: %r" % (got,))
@@ -293,8 +303,9 @@ def task_lists(tier):
         out = []
         for n in range(1, MAX_N + 1):
             out.extend(itertools.product(LETTERS, repeat=n))
-        return out, "all %d ordered lists (every multiset in every order) of 1..%d behaviours over the 6-letter alphabet" % (len(out), MAX_N)
-    out = [(a,) for a in LETTERS] + list(itertools.product(LETTERS, repeat=2))
+        out.extend(EXTRA_LISTS)
+        return out, "all %d ordered lists (every multiset in every order) of 1..%d behaviours over the 6-letter alphabet, plus %d lists with white-space twins and duplicated texts" % (len(out), MAX_N, len(EXTRA_LISTS))
+    out = [(a,) for a in LETTERS] + list(itertools.product(LETTERS, repeat=2)) + list(EXTRA_LISTS)
     for n in (3, 4):
         rows = pairwise_rows(n, LETTERS)
         for a in LETTERS:
@@ -448,7 +459,7 @@ def _seq_dfs(prefix, acc, wanted, prefixes):
     out = {}
     if prefix in wanted:
         out[prefix] = canon_result(acc)
-    for L in LETTERS:
+    for L in ALL_LETTERS:
         child = prefix + (L,)
         if child in prefixes:
             r = core.fresh_call(_seq_child, child, acc, wanted, prefixes)
